@@ -9,6 +9,7 @@ import (
 
 	"github.com/tink-crypto/tink-go/v2/insecurecleartextkeyset"
 	"github.com/tink-crypto/tink-go/v2/internal/internalapi"
+	"github.com/tink-crypto/tink-go/v2/key"
 	"github.com/tink-crypto/tink-go/v2/keyset"
 	"github.com/tink-crypto/tink-go/v2/testkeyset"
 	"github.com/tink-crypto/tink-go/v2/verifharness/internal/detrand"
@@ -76,6 +77,26 @@ func TestKeysetsWithoutProtoForm(t *testing.T) {
 			rt.Fatalf("Manager.Handle:%s\n%v", desc, err)
 		}
 		modes := []string{"cleartext", "testkeyset", "encrypted", "encrypted-ad", "encrypted-ctx"}
+		// the public-only route exists for the asymmetric type: Public() works on key objects and needs no
+		// proto form; the public key with salt length 0 has none either
+		var pub *keyset.Handle
+		if odd.Public != nil {
+			if pub, err = h.Public(); err != nil {
+				rt.Fatalf("keyset%s\nPublic(): %v", desc, err)
+			}
+			if pub.Len() != h.Len() {
+				rt.Fatalf("keyset%s\nPublic() has %d entries, the handle %d", desc, pub.Len(), h.Len())
+			}
+			for i := 0; i < pub.Len(); i++ {
+				pe, _ := pub.Entry(i)
+				he, _ := h.Entry(i)
+				want, perr := he.Key().(interface{ PublicKey() (key.Key, error) }).PublicKey()
+				if perr != nil || !pe.Key().Equal(want) || pe.KeyID() != he.KeyID() || pe.KeyStatus() != he.KeyStatus() || pe.IsPrimary() != he.IsPrimary() {
+					rt.Fatalf("keyset%s\nPublic(): entry %d does not hold the matching public key (%v)", desc, i, perr)
+				}
+			}
+			modes = append(modes, "public-nosecrets", "public-cleartext")
+		}
 		for _, mode := range modes {
 			r := route{mode: mode, format: rapid.SampledFrom(formats).Draw(rt, mode+"_format")}
 			if mode != "cleartext" && mode != "testkeyset" {
@@ -87,7 +108,16 @@ func TestKeysetsWithoutProtoForm(t *testing.T) {
 			w := tr.writer()
 			var werr error
 			var read func() (*keyset.Handle, error)
+			written := h
 			switch mode {
+			case "public-nosecrets":
+				written = pub
+				werr = pub.WriteWithNoSecrets(w)
+				read = func() (*keyset.Handle, error) { return keyset.ReadWithNoSecrets(tr.reader()) }
+			case "public-cleartext":
+				written = pub
+				werr = insecurecleartextkeyset.Write(pub, w)
+				read = func() (*keyset.Handle, error) { return insecurecleartextkeyset.Read(tr.reader()) }
 			case "cleartext":
 				werr = insecurecleartextkeyset.Write(h, w)
 				read = func() (*keyset.Handle, error) { return insecurecleartextkeyset.Read(tr.reader()) }
@@ -107,14 +137,31 @@ func TestKeysetsWithoutProtoForm(t *testing.T) {
 				}
 			}
 			if werr != nil {
-				evid.Add("unwritable/"+mode+"/refused", 1)
+				// A refused write must not leave a document behind that reads back to OTHER keys (e.g. the
+				// keyset without the member that has no proto form): whatever a reader accepts was written.
+				back, rerr := func() (hh *keyset.Handle, err error) {
+					defer func() {
+						if p := recover(); p != nil {
+							hh, err = nil, fmt.Errorf("reader panicked: %v", p)
+						}
+					}()
+					return read()
+				}()
+				switch {
+				case rerr != nil:
+					evid.Add("unwritable/"+mode+"/refused-nothing-readable", 1)
+				case sameEntries(written, back) == nil:
+					evid.Add("unwritable/"+mode+"/refused-but-complete-document-left", 1)
+				default:
+					rt.Fatalf("keyset%s\nroute %v: the write was refused (%v), but the transport holds %d bytes that read back to a handle with other entries: %v", desc, r, werr, tr.buf.Len(), sameEntries(written, back))
+				}
 				continue
 			}
 			back, rerr := read()
 			if rerr != nil {
 				rt.Fatalf("keyset%s\nroute %v: the write reported success, but what it wrote (%d bytes) does not read back: %v", desc, r, tr.buf.Len(), rerr)
 			}
-			if err := sameEntries(h, back); err != nil {
+			if err := sameEntries(written, back); err != nil {
 				rt.Fatalf("keyset%s\nroute %v: the write reported success, but the handle read back differs: %v", desc, r, err)
 			}
 			evid.Add("unwritable/"+mode+"/written-and-read-back", 1)
